@@ -48,7 +48,7 @@ def main():
         pkgdir = os.path.join(wt, meta['demo_pkg_dir'])
         demo_dst = os.path.join(pkgdir, 'zz_seed_demo_test.go')
         shutil.copy(os.path.join(d, 'demo_test.go'), demo_dst)
-        rc, o = sh(meta['demo_run_cmd'], wt, 900)
+        rc, o = sh(meta['demo_run_cmd'], wt, 3000)
         res['steps']['demo_pristine_passes'] = (rc == 0)
         if rc != 0:
             res['steps']['demo_pristine_output'] = o[-1500:]
@@ -59,11 +59,11 @@ def main():
             res['steps']['apply_output'] = o[-800:]
             ok = False
             raise SystemExit
-        rc, o = sh('go build ./...', wt, 900)
+        rc, o = sh('go build ./...', wt, 3000)
         res['steps']['builds'] = (rc == 0)
         if rc != 0:
             res['steps']['build_output'] = o[-800:]; ok = False
-        rc, o = sh(meta['demo_run_cmd'], wt, 900)
+        rc, o = sh(meta['demo_run_cmd'], wt, 3000)
         res['steps']['demo_patched_fails'] = (rc != 0)
         res['steps']['demo_patched_tail'] = o[-600:]
         if rc == 0:
